@@ -4,4 +4,4 @@ from harness import invariance
 
 def units(prop):
     return [invariance.noninterference_unit(), invariance.aggregation_unit(restrict=False), invariance.completion_order_unit(),
-            invariance.sequence_state_unit()]
+            invariance.sequence_state_unit(), invariance.hashseed_unit()]
